@@ -228,6 +228,21 @@ def stepClauses (op : String) (_j : Json) (pre post : Core) (msgs : List Json) :
                                        allocated := c.allocated, maxApps := 0, running := 0, allocating := [] }
           (q.allocated.keys ++ (orZero q.max).keys).findSome? (fun k =>
             if QTree.overMax (mk q) k && !QTree.overMax (mk pq) k then some s!"C02.sched-new-overmax {q.path}/{k}" else none)),
+    -- C02, counted from the applications: what the applications at or below a queue hold (real + placeholder) does not
+    -- newly exceed the queue's maximum through a scheduling decision (a cycle, or the confirmation of a swap it decided),
+    -- whatever the queue's own counter says
+    fun _ => if !(op == "schedule" || (op == "release" && (jStr (fldD _j "type" (.str ""))).toOption.getD "" == "PLACEHOLDER_REPLACED")) then none else
+      let held (c : Core) (qp : String) : Res :=
+        (c.liveApps.filter (fun a => under a.queue qp)).foldl (fun acc a => addX (addX acc a.allocated) a.allocatedPh) []
+      post.queues.findSome? (fun q => match q.max with
+        | none => none
+        | some m =>
+          if q.parent.isNone then none else
+          let h1 := held post q.path
+          let h0 := held pre q.path
+          m.findSome? (fun (k, v) =>
+            if decide (Res.getD h1 k > max 0 v) && decide (Res.getD h1 k > Res.getD h0 k) then
+              some s!"C02.sched-new-overmax-by-applications {q.path}/{k} held={Res.getD h1 k} max={v}" else none)),
     -- C05: a scheduling decision creates no new over-quota usage: neither a scheduling cycle nor the confirmation of a
     -- swap the scheduler decided (the real allocation is booked on the user when the shim confirms)
     fun _ => if !(op == "schedule" || (op == "release" && (jStr (fldD _j "type" (.str ""))).toOption.getD "" == "PLACEHOLDER_REPLACED")) then none else
@@ -242,6 +257,13 @@ def stepClauses (op : String) (_j : Json) (pre post : Core) (msgs : List Json) :
       let rejected := msgs.any (fun m => s m "t" == "alloc-rejected" || s m "t" == "app-rejected" || s m "t" == "node-rejected")
       let accepted := msgs.any (fun m => s m "t" == "alloc" || s m "t" == "app-accepted" || s m "t" == "node-accepted")
       if !rejected || accepted then none else
+      -- known class (KNOWN_FINDINGS C04): AddApplication creates the dynamic queue before its task-group checks refuse the
+      -- application; the empty queue stays until the queue cleaner removes it
+      let leftQueues := post.queues.filter (fun q => (pre.findQueue q.path).isNone && q.apps.isEmpty)
+      if op == "app-add" && !leftQueues.isEmpty &&
+         (ledgerDiff pre { post with queues := post.queues.filter (fun q => (pre.findQueue q.path).isSome) }).isNone then
+        some s!"C04.rejected-leaves-trace+dynamic-queue-left-by-rejected-application {(leftQueues.map (·.path))}"
+      else
       match ledgerDiff pre post with
       | some d => some s!"C04.rejected-leaves-trace {d}"
       | none => if pre.users != post.users || pre.groups != post.groups then some "C04.rejected-leaves-trace user-trackers" else none,
